@@ -1,7 +1,8 @@
 #!/bin/sh
-# tools/seed_prep.sh CNN  -> creates the scratch worktree and prints the seeder prompt for that property
+# tools/seed_prep.sh CNN  -> creates/refreshes the scratch worktree at /repo HEAD and writes the seeder prompt
 ID=$1; WT=/tmp/seed/$ID
 [ -d $WT ] || git -C /repo worktree add --detach -f $WT HEAD >/dev/null 2>&1
+git -C $WT checkout -q -- . ; git -C $WT clean -fdq; git -C $WT checkout -q --detach $(git -C /repo rev-parse HEAD)
 mkdir -p /tmp/seed-out/$ID
 python3 - "$ID" "$WT" <<'PY'
 import json,sys
